@@ -25,6 +25,36 @@ MANIFEST = dict(
 LVL = {"catNames": False, "resultName": True}
 
 
+class FragmentGen(G.SheetGen):
+    """Sheets inside the fragment of the universal theorem (Lean: CoreSheet.inFragment, Props/C02.C02_fragment):
+    action rows and wait_for_response / split_by_value / split_by_group rows; action rows are left
+    unconditionally, conditions leaving a wait row name no variable, no edge carries a category name, tests
+    leaving one row are distinct.  Whether a sheet really is in the fragment is decided by the Lean predicate
+    (driver op core.views), not by this generator."""
+
+    FRAG_ROUTERS = ["wait_for_response", "wait_for_response", "split_by_value", "split_by_group"]
+
+    def _edge_for(self, src):
+        if src["type"] in G.ACTION_TYPES:
+            return {"value": "", "variable": "", "type": "", "name": ""}
+        return super()._edge_for(src)
+
+    def _fresh_test(self, src, cond):
+        c = super()._fresh_test(src, cond)
+        c["name"] = ""
+        return c
+
+    def build(self):
+        rng = self.rng
+        self._last_group = None
+        while len(self.rows) < self.n:
+            if not self.nodes or rng.random() < 0.55:
+                self._node_row(rng.choice(G.ACTION_TYPES))
+            else:
+                self._node_row(rng.choice(self.FRAG_ROUTERS))
+        return self.rows
+
+
 def _parser():
     from rpft.parsers.common.cellparser import CellParser
     from rpft.parsers.common.rowparser import RowParser
@@ -55,11 +85,16 @@ def worker(args):
     rp = _parser()
     drv = core.Driver()
     reqs, sheets, vreqs = [], [], []
-    stats = {"views_agree": 0, "in_proved_fragment": 0, "generated": 0, "rejected_by_compiler": 0, "noop_unstable": 0, "with_noop": 0, "with_goto": 0,
+    stats = {"views_agree": 0, "in_proved_fragment": 0, "fragment_stream": 0, "generated": 0, "rejected_by_compiler": 0, "noop_unstable": 0, "with_noop": 0, "with_goto": 0,
              "with_router_row": 0, "with_implicit_router": 0, "rows": 0}
     for _ in range(n):
         noop = rng.random() < 0.4
-        rows = G.gen_core_sheet(rng, rng.randint(2, maxrows), noop=noop)
+        if rng.random() < 0.25:
+            # stream inside the fragment of the universal theorem C02_fragment
+            rows = FragmentGen(rng, rng.randint(2, maxrows)).build()
+            stats["fragment_stream"] += 1
+        else:
+            rows = G.gen_core_sheet(rng, rng.randint(2, maxrows), noop=noop)
         stats["generated"] += 1
         status, req, info = evaluate(rp, rows)
         if status == "rejected":
@@ -155,7 +190,7 @@ def run(ck: core.Check):
         "equivalence is at observation level {operand, ordered tests with arguments, wait/timeout, result name}; category names are not part of C02's statement",
     ]
     ck.partial_gap = [
-        "C02_full (all sheets) is proved universally only on the fragment CoreSheet.inFragment (C02_fragment, with the Lean compiler model — tied to the real parser in C01 — in place of the real compiler; the evidence counts how many explored sheets lie inside it: in_proved_fragment); outside it (C02_fragment_full: conditional edges leaving action rows, split_random, sub-flow/webhook/airtime rows, go_to, hard/loose exits, no_op, explicit category names, node merging, blocks) it is decided per explored sheet by the verified certificate checker on the real output",
+        "C02_full (all sheets) is proved universally only on the fragment CoreSheet.inFragment (C02_fragment, with the Lean compiler model — tied to the real parser in C01 — in place of the real compiler; a quarter of the explored sheets is generated inside it — FragmentGen — and the evidence counts how many explored sheets lie inside it as decided by the Lean predicate: in_proved_fragment); outside it (C02_fragment_full: conditional edges leaving action rows, split_random, sub-flow/webhook/airtime rows, go_to, hard/loose exits, no_op, explicit category names, node merging, blocks) it is decided per explored sheet by the verified certificate checker on the real output",
         "reference_flow_closed IS proved for every sheet (the reference interpretation is always a closed flow); the per-sheet closedB run on the reference flow is kept as a cross-check of the driver",
     ]
     rp = _parser()
@@ -208,7 +243,7 @@ def run(ck: core.Check):
     ck.extra["certificate_pairs_validated"] = total_pairs
     ck.extra["traces_validated_against_impl"] = len(ck.nontrivial)
     # strata self-check: a run that never saw a go_to / no_op / implicit router is under-testing
-    for need in ("with_noop", "with_goto", "with_router_row", "with_implicit_router"):
+    for need in ("with_noop", "with_goto", "with_router_row", "with_implicit_router", "in_proved_fragment"):
         if ck.strata.get(need, 0) < 5:
             raise core.Infra(f"generator stratum {need} under-represented: {ck.strata.get(need, 0)}")
 
